@@ -5,6 +5,8 @@ import (
 	"fmt"
 	"os"
 	"path/filepath"
+	"runtime/debug"
+	"runtime/pprof"
 	"sort"
 	"strconv"
 	"strings"
@@ -24,7 +26,14 @@ func main() {
 	maxpaths := flag.Int("maxpaths", 0, "stop after n paths")
 	solver := flag.String("solver", "z3", "solver")
 	all := flag.Bool("all", false, "do not stop at first violation")
+	cpuprof := flag.String("cpuprofile", "", "write cpu profile")
 	flag.Parse()
+	debug.SetGCPercent(800)
+	if *cpuprof != "" {
+		f, _ := os.Create(*cpuprof)
+		pprof.StartCPUProfile(f)
+		defer pprof.StopCPUProfile()
+	}
 	if *run != "" {
 		parts := strings.SplitN(*run, ":", 2)
 		cfg := &symx.Config{Entry: parts[1], Bounds: map[string]int{}, MaxInstr: 5_000_000, LoopBudget: 2000, Solver: *solver,
